@@ -308,7 +308,10 @@ impl<'a> FnCx<'a> {
             if let Some(c) = self.d.consts.get(&(String::new(), id.clone())) {
                 return Ok((E::Const(c.lean.clone()), c.ty.clone()));
             }
-            return self.no(line, format!("unknown identifier `{}` (not a local, not a whitelisted constant)", id));
+            if let Some((t, v)) = self.d.auto_const(&self.file, line, "", id)? {
+                return Ok((E::Int(v, t.clone(), line), t));
+            }
+            return self.no(line, format!("unknown identifier `{}` (not a local, not an integer constant of the group's files)", id));
         }
         let owner = {
             let o = &segs[segs.len() - 2];
@@ -331,6 +334,9 @@ impl<'a> FnCx<'a> {
         }
         if let Some(c) = self.d.consts.get(&(owner.clone(), name.clone())) {
             return Ok((E::Const(c.lean.clone()), c.ty.clone()));
+        }
+        if let Some((t, v)) = self.d.auto_const(&self.file, line, &owner, name)? {
+            return Ok((E::Int(v, t.clone(), line), t));
         }
         self.no(line, format!("path `{}` is not a variant of a whitelisted enum nor a whitelisted constant", tok(p).replace(' ', "")))
     }
@@ -471,7 +477,10 @@ impl<'a> FnCx<'a> {
             if let Some(sig) = self.d.fns.get(&(String::new(), last.clone())).cloned() {
                 return self.known_call(line, &last, &sig, args);
             }
-            return self.no(line, format!("call of `{}` which is not whitelisted", last));
+            if let Some(h) = self.d.helpers.get(&(String::new(), last.clone())).cloned() {
+                return self.inline_call(line, &h, None, args);
+            }
+            return self.no(line, format!("call of `{}` which is neither whitelisted nor a fn of the group's source files", last));
         }
         let owner = {
             let o = &segs[segs.len() - 2];
@@ -493,7 +502,16 @@ impl<'a> FnCx<'a> {
         if let Some(sig) = self.d.fns.get(&(owner.clone(), last.clone())).cloned() {
             return self.known_call(line, &format!("{}::{}", owner, last), &sig, args);
         }
-        self.no(line, format!("call of `{}` which is not whitelisted", tok(p).replace(' ', "")))
+        if let Some(h) = self.d.helpers.get(&(owner.clone(), last.clone())).cloned() {
+            return self.inline_call(line, &h, None, args);
+        }
+        // `T::from(x)` between integer types: the std impls are exactly the lossless conversions
+        if last == "from" && args.len() == 1 {
+            if let Some(to) = int_ty_of_name(&owner) {
+                return self.lossless(line, args[0], &to, &format!("{}::from", owner));
+            }
+        }
+        self.no(line, format!("call of `{}` which is neither whitelisted nor a fn of the group's source files", tok(p).replace(' ', "")))
     }
 
     fn variant_ctor(&mut self, line: usize, en: &str, vn: &str, args: Vec<&syn::Expr>) -> R<(E, Ty)> {
@@ -510,6 +528,156 @@ impl<'a> FnCx<'a> {
         let a = self.args_against(line, what, args, &sig.params)?;
         self.deps.insert(sig.lean.clone());
         Ok((E::Call(sig.lean.clone(), a, matches!(sig.ret, Ty::Res(..))), sig.ret.clone()))
+    }
+
+    fn lossless(&mut self, line: usize, arg: &syn::Expr, to: &Ty, what: &str) -> R<(E, Ty)> {
+        let (a, at) = self.expr(arg, None)?;
+        let at = self.resolve(&at);
+        self.lossless_ir(line, a, &at, to, what)
+    }
+
+    /// `T::from(x)` / `x.into()` between primitive integers (and from `bool`): only std impls can
+    /// exist, and they are the value preserving ones; anything else is refused.
+    fn lossless_ir(&mut self, line: usize, a: E, from: &Ty, to: &Ty, what: &str) -> R<(E, Ty)> {
+        let ok = match (from, to) {
+            (Ty::Bool, Ty::Int(..)) => true,
+            (Ty::Int(fb, false), Ty::Int(tb, false)) => tb >= fb,
+            (Ty::Int(fb, false), Ty::Int(tb, true)) => tb > fb,
+            (Ty::Int(fb, true), Ty::Int(tb, true)) => tb >= fb,
+            _ => false,
+        };
+        if !ok {
+            return self.no(line, format!("`{}` from {:?} to {:?} is not a lossless integer conversion (or the source type is not determined)", what, from, to));
+        }
+        Ok((E::Cast(Box::new(a), from.clone(), to.clone()), to.clone()))
+    }
+
+    /// Inline a call of a non-whitelisted fn / inherent method of the group's source files:
+    /// arguments are evaluated left to right (receiver first) in the caller's scope, then the
+    /// callee's body is translated in a fresh scope that only sees its parameters.
+    fn inline_call(&mut self, line: usize, h: &Helper, recv: Option<(E, Ty)>, args: Vec<&syn::Expr>) -> R<(E, Ty)> {
+        let what = if h.owner.is_empty() { h.name.clone() } else { format!("{}::{}", h.owner, h.name) };
+        if let Some(why) = &h.unusable {
+            return self.no(line, format!("call of `{}` ({}:{}) which cannot be inlined: {}", what, h.file, h.line, why));
+        }
+        let key = (h.owner.clone(), h.name.clone());
+        if self.inline_stack.contains(&key) {
+            return self.no(line, format!("call of `{}` which is (mutually) recursive", what));
+        }
+        let sig = &h.sig;
+        if sig.asyncness.is_some() || sig.unsafety.is_some() || sig.abi.is_some() || sig.variadic.is_some() {
+            return self.no(line, format!("call of `{}` which is async/unsafe/extern", what));
+        }
+        if !sig.generics.params.is_empty() || sig.generics.where_clause.is_some() {
+            return self.no(line, format!("call of `{}` which has generic parameters", what));
+        }
+        let self_ty = if h.owner.is_empty() { None } else { Some(h.owner.as_str()) };
+        // ---- parameters (name, type), receiver first
+        let mut params: Vec<(String, Ty)> = vec![];
+        let mut has_recv = false;
+        for a in &sig.inputs {
+            match a {
+                syn::FnArg::Receiver(r) => {
+                    if r.mutability.is_some() {
+                        return self.no(line, format!("call of `{}` which takes `&mut self` / `mut self`", what));
+                    }
+                    let t = if self.d.enums.contains_key(&h.owner) {
+                        Ty::Enum(h.owner.clone())
+                    } else if self.d.structs.contains_key(&h.owner) {
+                        Ty::Struct(h.owner.clone())
+                    } else {
+                        return self.no(line, format!("call of `{}` whose receiver type is not a whitelisted enum/struct", what));
+                    };
+                    has_recv = true;
+                    params.push(("self".to_string(), t));
+                }
+                syn::FnArg::Typed(pt) => {
+                    let id = match &*pt.pat {
+                        syn::Pat::Ident(pi) if pi.by_ref.is_none() && pi.mutability.is_none() && pi.subpat.is_none() => pi.ident.to_string(),
+                        syn::Pat::Wild(_) => "_".to_string(),
+                        _ => return refuse(&h.file, line_of(a), format!("fn `{}` (inlined at line {}): parameter pattern `{}`", what, line, tok(&pt.pat))),
+                    };
+                    if let syn::Type::Reference(r) = &*pt.ty {
+                        if r.mutability.is_some() {
+                            return refuse(&h.file, line_of(a), format!("fn `{}` (inlined at line {}): `&mut` parameter", what, line));
+                        }
+                    }
+                    let t = match self.d.ty(&h.file, &pt.ty, self_ty) {
+                        Ok(t) => t,
+                        Err(mut r) => {
+                            r.what = format!("fn `{}` (inlined at {}:{}): {}", what, self.file, line, r.what);
+                            return Err(r);
+                        }
+                    };
+                    params.push((id, t));
+                }
+            }
+        }
+        let ret = match &sig.output {
+            syn::ReturnType::Default => Ty::Unit,
+            syn::ReturnType::Type(_, t) => match self.d.ty(&h.file, t, self_ty) {
+                Ok(t) => t,
+                Err(mut r) => {
+                    r.what = format!("fn `{}` (inlined at {}:{}): {}", what, self.file, line, r.what);
+                    return Err(r);
+                }
+            },
+        };
+        // ---- arguments, in the caller's scope
+        let mut arg_ir: Vec<E> = vec![];
+        let mut rest_params = &params[..];
+        let mut args = args;
+        if has_recv {
+            match recv {
+                Some((r, rt)) => {
+                    self.unify(line, &rt, &params[0].1, &format!("receiver of `{}`", what))?;
+                    arg_ir.push(r);
+                }
+                None => {
+                    // `Type::method(receiver, ..)`
+                    if args.is_empty() {
+                        return self.no(line, format!("call of `{}` without a receiver", what));
+                    }
+                    let first = args.remove(0);
+                    arg_ir.push(self.expr(first, Some(&params[0].1))?.0);
+                }
+            }
+            rest_params = &params[1..];
+        } else if recv.is_some() {
+            return self.no(line, format!("`{}` has no receiver", what));
+        }
+        arg_ir.extend(self.args_against(line, &what, args, rest_params)?);
+        // ---- the body, in a fresh frame
+        let saved_scopes = std::mem::replace(&mut self.scopes, vec![vec![]]);
+        let saved_aliases = std::mem::replace(&mut self.aliases, vec![std::collections::BTreeMap::new()]);
+        let saved_ret = std::mem::replace(&mut self.ret, ret.clone());
+        let saved_owner = std::mem::replace(&mut self.owner, h.owner.clone());
+        let saved_file = std::mem::replace(&mut self.file, h.file.clone());
+        self.inline_stack.push(key);
+        let mut binds: Vec<(String, E)> = vec![];
+        for ((pn, pt), a) in params.iter().zip(arg_ir.into_iter()) {
+            match &a {
+                // an argument that is a plain variable needs no new binding: alias the parameter
+                E::Var(ln) if pn != "_" => {
+                    self.scopes.last_mut().unwrap().push((pn.clone(), ln.clone(), pt.clone()));
+                }
+                _ => {
+                    let ln = self.bind(pn, pt.clone());
+                    binds.push((ln, a));
+                }
+            }
+        }
+        let r = self.block(&h.block, Some(&ret));
+        self.inline_stack.pop();
+        self.scopes = saved_scopes;
+        self.aliases = saved_aliases;
+        self.ret = saved_ret;
+        self.owner = saved_owner;
+        self.file = saved_file;
+        let (body, bt) = r?;
+        self.inlined.insert(format!("{}:{} fn {}", h.file, h.line, what), format!("{} (inlined)", h.hash));
+        let ty = self.unify(line, &bt, &ret, &format!("result of `{}`", what))?;
+        Ok((E::Inline(binds, Box::new(body)), ty))
     }
 
     fn method(&mut self, line: usize, m: &syn::ExprMethodCall, want: Option<&Ty>) -> R<(E, Ty)> {
@@ -582,11 +750,20 @@ impl<'a> FnCx<'a> {
                     self.deps.insert(sig.lean.clone());
                     return Ok((E::Call(sig.lean.clone(), a, matches!(sig.ret, Ty::Res(..))), sig.ret.clone()));
                 }
-                self.no(line, format!("method `{}::{}` is not whitelisted", n, name))
+                if let Some(h) = self.d.helpers.get(&(n.clone(), name.clone())).cloned() {
+                    return self.inline_call(line, &h, Some((recv, rt.clone())), args);
+                }
+                self.no(line, format!("method `{}::{}` is neither whitelisted nor an inherent method in the group's source files", n, name))
             }
             Ty::Int(bits, signed) => {
                 let same = |cx: &mut Self, a: &syn::Expr| -> R<E> { Ok(cx.expr(a, Some(&rt))?.0) };
                 let u32t = Ty::Int(32, false);
+                if name == "into" && args.is_empty() {
+                    return match want.map(|w| self.resolve(w)) {
+                        Some(to @ Ty::Int(..)) => self.lossless_ir(line, recv, &rt, &to, "into()"),
+                        _ => self.no(line, format!("`{}`: the target type of `.into()` is not determined by its context", short(&whole))),
+                    };
+                }
                 let (sm, argv, res): (StdM, Vec<E>, Ty) = match (name.as_str(), args.len()) {
                     ("wrapping_add", 1) => (StdM::WrappingAdd, vec![same(self, args[0])?], rt.clone()),
                     ("wrapping_sub", 1) => (StdM::WrappingSub, vec![same(self, args[0])?], rt.clone()),
